@@ -389,12 +389,15 @@ theorem simple_core (d : List Nat) (A n : Nat) (a0 a1 a2 a3 k0 k1 k2 k3 : Nat) (
   · unfold storeSimpleHuffmanTree
     rw [writeBits_ok 2 1 wr (by decide) (by decide)]
     simp only [Out.bind_ok]
+    have h1 : 2 ≤ n := by omega
+    have h4 : n ≤ 4 := by omega
     have hm : (n + u64 - 1) % u64 = n - 1 := by
-      have h1 : 1 ≤ n := by rcases hn with rfl | rfl | rfl <;> decide
-      have h4 : n ≤ 4 := by rcases hn with rfl | rfl | rfl <;> decide
       have : n + u64 - 1 = (n - 1) + u64 := by unfold u64; omega
       rw [this, Nat.add_mod_right, Nat.mod_eq_of_lt (by unfold u64; omega)]
-    rw [hm, writeBits_ok 2 (n - 1) _ (by rcases hn with rfl | rfl | rfl <;> decide) (by decide)]
+    have hlt4 : n - 1 < 2 ^ 2 := by
+      have : (2:Nat) ^ 2 = 4 := rfl
+      omega
+    rw [hm, writeBits_ok 2 (n - 1) _ hlt4 (by decide)]
     simp only [Out.bind_ok, hsort, List.map_cons, List.map_nil]
     rw [storeSimpleTail_spec d n (alphabetBits A) (g p0) (g p1) (g p2) (g p3) _ _ hn hw
       (hgb p0 (hpmem p0 (by simp))) (hgb p1 (hpmem p1 (by simp))) (hgb p2 (hpmem p2 (by simp)))
@@ -432,7 +435,7 @@ theorem simple_core (d : List Nat) (A n : Nat) (a0 a1 a2 a3 k0 k1 k2 k3 : Nat) (
       rw [hg, ← List.map_take]
       apply List.mem_map.mpr
       refine ⟨k, ?_, rfl⟩
-      have h4 : n ≤ 4 := by rcases hn with rfl | rfl | rfl <;> decide
+      have h4 : n ≤ 4 := by omega
       rw [show ([0, 1, 2, 3] : List Nat) = List.range 4 from rfl, List.take_range, Nat.min_eq_left h4]
       exact List.mem_range.mpr hkn
     rw [hpat']
@@ -441,7 +444,7 @@ theorem simple_core (d : List Nat) (A n : Nat) (a0 a1 a2 a3 k0 k1 k2 k3 : Nat) (
     rw [hv x]
     have hmemiff : x ∈ ([p0, p1, p2, p3].map g).take n ↔ x ∈ [a0, a1, a2, a3].take n := by
       rw [← List.map_take, hg, ← List.map_take]
-      have h4 : n ≤ 4 := by rcases hn with rfl | rfl | rfl <;> decide
+      have h4 : n ≤ 4 := by omega
       have hr : ([0, 1, 2, 3] : List Nat).take n = List.range n := by
         rw [show ([0, 1, 2, 3] : List Nat) = List.range 4 from rfl, List.take_range,
           Nat.min_eq_left h4]
